@@ -204,7 +204,7 @@ func TestC04Transcript(t *testing.T) {
 		s := s
 		t.Run(s.name, func(t *testing.T) {
 			sub := "transcript/" + s.name
-			vlib.Check(t, vlib.N(50, 900), func(t *rapid.T) {
+			vlib.Check(t, vlib.N(60, 900), func(t *rapid.T) {
 				seed := vlib.EdgeBytes(t, 32, "seed")
 				msg := vlib.Msg(t, "msg")
 				ctx := drawCtx(t, s)
@@ -297,7 +297,7 @@ func TestC04Transcript(t *testing.T) {
 }
 
 var altKinds = []string{
-	"mutate-sig", "mutate-sig", "mutate-sig", "mutate-pk", "mutate-msg", "mutate-ctx", "other-key",
+	"mutate-sig", "mutate-sig", "sig-bitflip", "sig-bitflip", "mutate-pk", "mutate-msg", "mutate-ctx", "other-key",
 	"z-set", "ctilde", "trailing", "truncated", "hint", "hint", "hint", "z-boundary", "z-boundary", "z-max-valid",
 }
 
@@ -392,7 +392,7 @@ func TestC04Verdict(t *testing.T) {
 		p := s.p
 		t.Run(s.name, func(t *testing.T) {
 			sub := "verdict/" + s.name
-			vlib.Check(t, vlib.N(60, 700), func(t *rapid.T) {
+			vlib.Check(t, vlib.N(80, 700), func(t *rapid.T) {
 				seed := vlib.EdgeBytes(t, 32, "seed")
 				msg := vlib.Msg(t, "msg")
 				ctx := drawCtx(t, s)
@@ -415,6 +415,21 @@ func TestC04Verdict(t *testing.T) {
 				case "mutate-sig":
 					m := vlib.Mutate(t, h.sig, nil, "sig")
 					verdict(t, h, "mutate-sig", m.Kind, h.pkb, msg, ctx, m.Out, false)
+				case "sig-bitflip":
+					// one bit in a drawn region of the signature: c~, z, hint indices, switch-over bytes
+					lo, hi, region := 0, p.CTilde, "ctilde"
+					switch rapid.IntRange(0, 3).Draw(t, "region") {
+					case 1:
+						lo, hi, region = p.CTilde, p.HintOffset(), "z"
+					case 2:
+						lo, hi, region = p.HintOffset(), p.HintOffset()+p.Omega, "hint-indices"
+					case 3:
+						lo, hi, region = p.HintOffset()+p.Omega, p.SigSize(), "switch-over"
+					}
+					i := rapid.IntRange(8*lo, 8*hi-1).Draw(t, "bit")
+					sig := append([]byte{}, h.sig...)
+					sig[i/8] ^= 1 << (i % 8)
+					verdict(t, h, "sig-bitflip-"+region, fmt.Sprintf("bit %d", i), h.pkb, msg, ctx, sig, false)
 				case "mutate-pk":
 					pkb := append([]byte{}, h.pkb...)
 					i := rapid.IntRange(0, 8*len(pkb)-1).Draw(t, "bit")
